@@ -332,9 +332,9 @@ def asc_facts():
         subset("number-pattern-is-a-decimal-number", Pn.fullmatch(), L(ASC_NUMBER), "RE_FLOAT spells decimal numbers only (sign, digits, point, exponent)"),
         subset("plain-decimal-numbers-are-numbers", L(r"-?(?:0|[1-9][0-9]*)(?:\.[0-9]+)?"), z3.Intersect(Pn.fullmatch(), hitw),
                "integers and decimals as Neurolucida writes them are words that pass the number test"),
-        # FINDING (C15): the Lexer applies RE_FLOAT.match (a PREFIX test): a word like '1_0' or '1٣' passes it, float() accepts it
+        # defect found here and FIXED in /repo (known_findings.jsonl): the Lexer applied RE_FLOAT.match (a PREFIX test): a word like '1_0' or '1٣' passes it, float() accepts it
         # (10.0 / 13.0 -- the second one is tolerated by the reference, which allows any Unicode decimal digit) and a malformed point is converted instead of rejected.
-        subset("number-token-is-entirely-a-number", z3.Intersect(hitw, fl_ok), L(ASC_NUMBER),  # FINDING
+        subset("number-token-is-entirely-a-number", z3.Intersect(hitw, fl_ok), L(ASC_NUMBER),
                "a word that passes the Lexer's number test AND that float() converts (i.e. a word that becomes a FLOAT token) is a decimal number in its entirety"),
     ]
     for w in ("1,5", "1.2.3", "2.5E-", "3.5mm", "1e", "-", ".", "e5"):
